@@ -77,6 +77,12 @@ func runSysFault(x *X) {
 	}
 	if c.Intn(3, "breaker") == 0 {
 		o.breaker = &config.CircuitBreakerConfig{Enabled: true, MaxRequests: 1 + c.Intn(3, "mr"), IntervalSeconds: 5 + c.Intn(20, "cbi"), TimeoutSeconds: 1 + c.Intn(6, "cbt"), FailureThreshold: 1 + c.Intn(4, "cbft"), SuccessThreshold: 1}
+		// (several successes to close, with the trial budget left to its default: what is not written in a
+		// configuration is part of it)
+		if c.Intn(3, "cb-success-threshold") == 0 {
+			o.breaker.SuccessThreshold = 2 + c.Intn(2, "cbst")
+			o.breaker.MaxRequests = []int{0, o.breaker.SuccessThreshold, o.breaker.SuccessThreshold + 1}[c.Intn(3, "cb-mr-unset")]
+		}
 	}
 	if c.Intn(4, "limiter") == 0 {
 		o.limiter = &config.RateLimitConfig{Enabled: true, MaxTokens: 3 + c.Intn(10, "tokens"), RefillRate: 1 + c.Intn(3, "refill")}
